@@ -362,6 +362,10 @@ class Engine(Exec):
         if name == 'pi':
             return V.PI
         if name in ('dict',):
+            if args and isinstance(args[0], (list, tuple)):
+                return {k: v for (k, v) in args[0]}
+            if args and isinstance(args[0], dict):
+                return dict(args[0])
             return {}
         raise OutOfReach('builtin %s' % name)
 
